@@ -72,9 +72,9 @@ def value_pool(interp, model, name):
         return [("utf-8", "utf-8"), ("cp1252", "cp1252"), ("no-such-encoding", "invalid"), ("hex", "invalid"), ("rot13", "invalid"),
                 ("base64", "invalid"), ("utf-8\0", "invalid")]
     if name == "header":
-        return [("0", 0), ("3", 3), ("-1", "invalid"), ("x", "invalid")]
+        return [("0", 0), ("3", 3), ("-1", "invalid"), ("x", "invalid"), ("1_0", "invalid")]
     if name == "sheet":
-        return [("1", 1), ("2", 2), ("0", "invalid"), ("-1", "invalid"), ("x", "invalid")]
+        return [("1", 1), ("2", 2), ("0", "invalid"), ("-1", "invalid"), ("x", "invalid"), ("1_0", "invalid")]
     if name == "decimal_separator":
         return [(v, v) for v in fold("_VALID_DECIMAL_SEPARATORS")] + [(";", "invalid"), ("", "invalid")]
     if name == "thousands_separator":
@@ -91,7 +91,7 @@ def value_pool(interp, model, name):
     if name == "line_delimiter":
         return [("lf", "\n"), ("CR", "\r"), ("CrLf", "\r\n"), ("any", "any"), ("none", "none-special"), ("foo", "invalid")]
     if name == "item_delimiter":
-        return [(";", ";"), ("|", "|"), ("a", "a"), ("59", ";"), ("0x3b", ";"), ("Tab", "\t"), ('";"', ";")]
+        return [(";", ";"), ("|", "|"), ("a", "a"), ("59", ";"), ("0x3b", ";"), ("Tab", "\t"), ('";"', ";"), ("4_4", "invalid"), ("0x2_c", "invalid")]
     if name == "allowed_characters":
         return [("<range>", "range"), ("<broken range>", "invalid")]
     return [("x", "invalid")]
